@@ -214,7 +214,18 @@ class Client:
             try:
                 if self.conn is None:
                     self.conn = http.client.HTTPConnection("127.0.0.1", self.port, timeout=30)
-                self.conn.request(method, target, body=body, headers=headers or {})
+                self.sent = getattr(self, "sent", 0) + 1
+                if isinstance(body, (bytes, bytearray)) and len(body) >= 2 and self.sent % 3 == 2:
+                    # every third body goes out with chunked transfer coding, in 2-4 chunks: a
+                    # framing the document says nothing about and the server must accept
+                    n = 2 + self.sent % 3
+                    step = max(1, -(-len(body) // n))
+                    pieces = [bytes(body[i:i + step]) for i in range(0, len(body), step)]
+                    h = {k: v for k, v in (headers or {}).items() if k.lower() != "content-length"}
+                    h["Transfer-Encoding"] = "chunked"
+                    self.conn.request(method, target, body=iter(pieces), headers=h, encode_chunked=True)
+                else:
+                    self.conn.request(method, target, body=body, headers=headers or {})
                 r = self.conn.getresponse()
                 data = r.read()
                 hdrs = {}
